@@ -31,7 +31,7 @@ ASSUMPTIONS = [
     "a 20 s alarm per case reports 'inconclusive' (counted), never a violation",
 ]
 BUDGET = {"quick": (16, 600), "thorough": (16, 15000)}
-N_MUT = 24
+N_MUT = 25
 
 
 def strategy(tier, phase):
@@ -246,6 +246,8 @@ def mutate(mp, muts):
                 d = vi.type.tensor_type.shape.dim.add()
                 d.dim_value = -5
                 mp.graph.quantization_annotation.add(tensor_name="no_such")
+            elif kind == 24:  # IR version inconsistent with the features used
+                mp.ir_version = [0, 3, 9, 10, 11, 2**31 - 1, 7][b % 7]
             else:
                 continue
             applied += 1
